@@ -16,6 +16,9 @@ Parts:
 """
 import copy
 import json
+import tempfile
+import shutil
+import os
 import subprocess
 import sys
 import types
@@ -703,6 +706,94 @@ def tree_part(mon, rec, rng, idx, seed):
         rec.sample({"part": "tree", "json": text})
 
 
+def twins_part(mon, rec, rng, idx):
+    """objects other than the two shipped computers built from a configuration and by hand: post-processors whose
+    constructors pass extra keywords on (to numpy.pad, to read_signal), pre-processors, parametrised windows and scales,
+    and a frame computer a user derived from the documented base class"""
+    from pydrobert.speech import alias as A, post as POST, pre as PRE, filters as F, scales as S, compute as C
+    from .. import userbank
+
+    UC = userbank.user_computer_class()
+    x = rng.standard_normal((int(rng.integers(4, 12)), int(rng.integers(2, 5)))) * 3
+
+    def same(a, b):
+        return a.shape == b.shape and a.dtype == b.dtype and np.array_equal(a, b, equal_nan=True)
+
+    pad = [("constant", {"constant_values": float(rng.integers(-3, 4))}), ("linear_ramp", {"end_values": float(rng.integers(-3, 4))}), ("mean", {"stat_length": int(rng.integers(1, 4))}),
+           ("reflect", {"reflect_type": "odd"}), ("edge", {})][int(rng.integers(5))]
+    nd, nv = int(rng.integers(1, 3)), int(rng.integers(2, 4))
+    cases = [
+        ("PostProcessor", dict({"name": "deltas", "num_deltas": nd, "pad_mode": pad[0]}, **pad[1]), lambda: POST.Deltas(nd, pad_mode=pad[0], **pad[1]), lambda o: o.apply(x)),
+        ("PostProcessor", dict({"alias": "stack", "num_vectors": nv, "pad_mode": pad[0]}, **pad[1]), lambda: POST.Stack(nv, pad_mode=pad[0], **pad[1]), lambda o: o.apply(x)),
+        ("PreProcessor", {"name": "preemph", "coeff": 0.5}, lambda: PRE.Preemphasize(0.5), lambda o: o.apply(x[:, 0])),
+        ("WindowFunction", {"name": "gamma", "order": 2, "peak": 0.6}, lambda: F.GammaWindow(2, 0.6), lambda o: o.get_impulse_response(17)),
+        ("ScalingFunction", {"alias": "linear", "low_hz": 5.0, "slope_hz": 2.0}, lambda: S.LinearScaling(5.0, 2.0), lambda o: np.array([o.hertz_to_scale(100.0), o.scale_to_hertz(7.0)])),
+    ]
+    fams = {"PostProcessor": POST.PostProcessor, "PreProcessor": PRE.PreProcessor, "WindowFunction": F.WindowFunction, "ScalingFunction": S.ScalingFunction}
+    for fam, cfg, explicit, use in cases:
+        text = json.dumps(cfg)
+        rec.ev()
+        rec.count("processor_twins")
+        try:
+            twin = use(explicit())
+        except Exception:
+            rec.count("processor_twins_not_constructible")
+            continue
+        for how in ("mapping", "from_alias"):
+            try:
+                if how == "mapping":
+                    built = A.alias_factory_subclass_from_arg(fams[fam], json.loads(text))
+                else:
+                    kw = {k: v for k, v in cfg.items() if k not in ("name", "alias")}
+                    built = fams[fam].from_alias(cfg.get("alias", cfg.get("name")), **kw)
+                got = use(built)
+            except Exception as e:
+                mon.v("%s built from %s (%s) raised %r; the explicitly constructed object works" % (fam, text, how, e), check="twin_raise", cfg=text)
+                continue
+            if not same(np.asarray(got), np.asarray(twin)):
+                mon.v("%s built from %s (%s) behaves differently from the explicitly constructed object" % (fam, text, how), check="twin_value", cfg=text)
+        rec.nt(("twin", text))
+    # Standardize: statistics file name plus a read_signal keyword passed through
+    d = tempfile.mkdtemp(prefix="c08_")
+    try:
+        st = POST.Standardize()
+        st.accumulate(x)
+        p = os.path.join(d, "stats.npz")
+        st.save(p, key="mine")
+        cfg = {"name": "standardize", "rfilename": p, "key": "mine"}
+        rec.ev()
+        rec.count("processor_twins")
+        try:
+            built = A.alias_factory_subclass_from_arg(POST.PostProcessor, dict(cfg))
+            if not same(built.apply(x), POST.Standardize(p, key="mine").apply(x)):
+                mon.v("Standardize built from %r differs from the explicitly constructed object" % (cfg,), check="twin_value", cfg=json.dumps(cfg))
+        except Exception as e:
+            mon.v("Standardize built from %r raised %r; the explicitly constructed object works" % (cfg, e), check="twin_raise", cfg=json.dumps(cfg))
+    finally:
+        shutil.rmtree(d, ignore_errors=True)
+    # a user's computer derived from LinearFilterBankFrameComputer, its bank given by alias / mapping / object
+    bank_cfg = {"name": "tri", "num_filts": 3, "sampling_rate": 1000, "low_hz": 20.0, "high_hz": 480.0, "scaling_function": "mel"}
+    sig = rng.standard_normal(int(rng.integers(20, 60)))
+    rec.ev()
+    rec.count("user_computer_twins")
+    try:
+        want = UC(F.TriangularOverlappingFilterBank("mel", num_filts=3, sampling_rate=1000, low_hz=20.0, high_hz=480.0), include_energy=True).compute_full(sig)
+        for spelled in ({"name": "vfband", "bank": bank_cfg, "include_energy": True}, {"alias": "vfband", "bank": json.loads(json.dumps(bank_cfg)), "include_energy": True}):
+            built = A.alias_factory_subclass_from_arg(C.FrameComputer, json.loads(json.dumps(spelled)))
+            if not isinstance(built.bank, F.LinearFilterBank):
+                mon.v("a computer derived from LinearFilterBankFrameComputer and built from %r has a %s as its bank" % (spelled, type(built.bank).__name__), check="twin_value",
+                      cfg=json.dumps(spelled))
+                continue
+            got = built.compute_full(sig)
+            if not same(got, want):
+                mon.v("user computer built from %r differs from the explicitly constructed one" % (spelled,), check="twin_value", cfg=json.dumps(spelled))
+        built = UC("fbank")  # the bank as a bare alias with its default arguments
+        if not isinstance(built.bank, F.Fbank):
+            mon.v("a computer derived from LinearFilterBankFrameComputer given bank='fbank' has a %s as its bank" % type(built.bank).__name__, check="twin_value", cfg="fbank")
+    except Exception as e:
+        mon.v("user computer derived from LinearFilterBankFrameComputer: %r" % (e,), check="twin_raise", cfg="vfband")
+
+
 def run_case(case, rec, mon=None):
     import shutil
     import tempfile
@@ -718,6 +809,8 @@ def run_case(case, rec, mon=None):
         registry_part(mon, rec)
     elif kind == "factory":
         factory_part(mon, rec)
+    elif kind == "twins":
+        twins_part(mon, rec, rng_for(case["seed"], "C08", case["idx"], 7), case["idx"])
     elif kind == "scenario":
         d = tempfile.mkdtemp(prefix="c08_")
         try:
@@ -745,6 +838,7 @@ def plan(tier, seed):
     cases += [{"kind": "scenario", "name": n} for n in DIRECTED]
     cases += [{"kind": "scenario", "idx": i, "seed": seed} for i in range(120 if q else 1500)]
     cases += [{"kind": "tree", "idx": i, "seed": seed} for i in range(600 if q else 6000)]
+    cases += [{"kind": "twins", "idx": i, "seed": seed} for i in range(40 if q else 400)]
     nsh = 16
     return [{"cases": cases[i::nsh]} for i in range(nsh) if cases[i::nsh]]
 
